@@ -101,18 +101,13 @@ def observe_chunk(cs: list) -> list:
     return [observe_case(c) for c in cs]
 
 
-def shape(t, d=2) -> str:
-    """Constructor skeleton (for grouping failing cases into stable keys)."""
+def shape(t, top=True) -> str:
+    """Skeleton of the offending construct (for grouping failing cases into stable keys):
+    tuples by arity class, parametrised types as X[...] with the shapes of tuple arguments."""
     tag = t[0]
-    if d == 0:
-        return "_"
     if tag == "tup":
-        els = [shape(x, d - 1) for x in t[1]]
-        return "(" + ", ".join(els) + ("," if len(els) == 1 else "") + ")"
-    if tag in ("opq", "struct") and t[2]:
-        return t[1] + "[" + ", ".join(shape(x, d - 1) for x in t[2]) + "]"
-    if tag == "gfun":
-        return "forall " + ",".join(p[0] for p in t[2]) + "." if t[2] else "fn"
-    if tag == "ex":
-        return "?" + t[2]
+        n = len(t[1])
+        return "(_,)" if n == 1 else ("()" if n == 0 else "(_, _..)")
+    if tag in ("opq", "struct") and t[2] and top:
+        return "X[" + ", ".join(shape(x, False) for x in t[2]) + "]"
     return "_"
